@@ -242,3 +242,64 @@ func H03_MapValue() {
 		}
 	}
 }
+
+// the removed field is the last one in the data
+func H03_LastCounted() {
+	setBounds()
+	p := newPlenc(cfgDef)
+	var x V_KxLastCounted
+	x.Fill("s")
+	d, err := p.Marshal(nil, &x.V)
+	evolve(d, err, x.V.A, x.V.B, p)
+}
+
+func H03_LastMap() {
+	setBounds()
+	p := newPlenc(cfgDef)
+	var x V_KxLastMap
+	x.Fill("s")
+	d, err := p.Marshal(nil, &x.V)
+	evolve(d, err, x.V.A, x.V.B, p)
+}
+
+func H03_LastStructs() {
+	setBounds()
+	p := newPlenc(cfgDef)
+	var x V_KxLastStructs
+	x.Fill("s")
+	d, err := p.Marshal(nil, &x.V)
+	evolve(d, err, x.V.A, x.V.B, p)
+}
+
+func H03_LastStr() {
+	setBounds()
+	p := newPlenc(cfgDef)
+	var x V_KxLastStr
+	x.Fill("s")
+	d, err := p.Marshal(nil, &x.V)
+	evolve(d, err, x.V.A, x.V.B, p)
+}
+
+// H03_FirstHigh: the writer declares the removed, highest-index field first;
+// the evolved type declares its fields in ascending index order.
+func H03_FirstHigh() {
+	setBounds()
+	p := newPlenc(cfgDef)
+	var x V_KxFirstHigh
+	x.Fill("s")
+	d, err := p.Marshal(nil, &x.V)
+	vrt.Assert("marshal ok", err == nil)
+	var prior cat.KxPrimeAsc
+	prior.Aye = vrt.Int("prior.Aye")
+	prior.New = vrt.Int("prior.New")
+	prior.Bee = vrt.String("prior.Bee", vrt.Choice("prior.Bee.len", 2))
+	before := prior
+	vrt.Assert("decodes without error", p.Unmarshal(d, &prior) == nil)
+	vrt.Assert("shared field 1", prior.Aye == vrt.IteInt(x.V.A != 0, x.V.A, before.Aye))
+	if len(x.V.B) != 0 {
+		vrt.Assert("shared field 3", prior.Bee == x.V.B)
+	} else {
+		vrt.Assert("absent field keeps prior value", prior.Bee == before.Bee)
+	}
+	vrt.Assert("added field untouched", prior.New == before.New)
+}
